@@ -32,6 +32,7 @@ import ForML.Model.SymbolsSexp
 import ForML.Model.TableWF
 import ForML.Model.Dask
 import ForML.Model.PyFunc
+import ForML.Lemmas.C02PyOnce
 import ForML.Model.Builder
 import ForML.Model.BuilderSexp
 open ForML ForML.Flow ForML.Flow.PyFunc
@@ -74,6 +75,14 @@ def pyfunc2Out (A : Option Assets) (t : Table) (x : Val) : Sexp :=
   match evalExprTwice A t x (.input 1) with
   | .ok (v, w) => .list [.atom "ok", v.toSexp, w.toSexp]
   | .error e => .list [.atom "error", .atom (pfErrName e)]
+
+/-- the instructions the single-function runner executes on the first request (`x`) and on the second (`input 1`),
+in execution order (`Term.executed`, the instrumented evaluator of `Lemmas/C02PyOnce.lean`) -/
+def pyExecOut (A : Option Assets) (t : Table) (x : Val) : Sexp :=
+  match expression A t with
+  | .ok term => .list [.atom "ok", .list ((term.executed x).map Key.toSexp),
+                       .list ((term.executed (.input 1)).map Key.toSexp), Sexp.ofBool term.uniform]
+  | .error _ => .atom "none"
 
 def valueInOut (A : Option Assets) (t : Table) (h : Key) (x : Val) : Sexp :=
   .list (t.sinks.map fun k => .list [k.toSexp, (valueIn A t h x t.fuel k).toSexp])
@@ -127,7 +136,8 @@ def stepC02 : Sexp → Sexp
         | some vin =>
           .list [.atom "all", runOut A t, daskOut A t, pyfuncOut A t x, pyfunc2Out A t x, vin, Sexp.ofBool (t.ranked r),
                  Sexp.ofBool (t.applyMode A), processesOut code A T t.sinks,
-                 .list (known.map fun i => .list [.ofNat (code i), .ofNat i.sym, kwargsSexp i.params])]
+                 .list (known.map fun i => .list [.ofNat (code i), .ofNat i.sym, kwargsSexp i.params]),
+                 pyExecOut A t x]
     | _, _, _, _ => .atom "bad-op"
   | .list [.atom "spec", c, .list args, kw] =>
     match ActorClass.ofSexp? c, args.mapM Hyper.ofSexp?, kwargsOf? kw with
